@@ -10,4 +10,5 @@ for pid in "$@"; do
   (cd /verif && VERIF_ENLARGE=0 ./check "$pid" --tier quick 2>&1 | grep -E "VIOLATION|KNOWN|exit=" )
 done
 git -C /repo checkout -- .
+python3 /verif/driver/regen.py > /dev/null
 git -C /repo status --porcelain
